@@ -1007,6 +1007,24 @@ def handle (sp : Spec) (en : Enums) (ctx : Ctx) : Req → Outcome
   | .v1Delete b => deletePoints sp.v1Delete sp.v1PathLen true ctx b
   | .v1Search b => v1Search sp ctx b
 
+/-! ## header middleware (`AppHeaderMiddleware`, in front of every route) -/
+
+/-- `X-User-Id` is used verbatim as a directory name and key prefix: it must be a single plain path
+segment — not empty, not "." / "..", no `/` or `\` -/
+def userIdOk (u : Str) : Bool :=
+  !u.isEmpty && !(u = S ".") && !(u = S "..") && !u.any (fun c => c = 0x2f#8 || c = 0x5c#8)
+
+structure Headers where
+  userId : Str
+  planId : Str
+  planKnown : Bool      -- `userPlans[planId]` exists
+
+def headersOk (h : Headers) : Bool := userIdOk h.userId && !h.planId.isEmpty && h.planKnown
+
+/-- a request as the router sees it: the header middleware first, then the endpoint -/
+def handleHttp (sp : Spec) (en : Enums) (h : Headers) (ctx : Ctx) (req : Req) : Outcome :=
+  if headersOk h then handle sp en ctx req else reject 400
+
 /-! ## what reaches an index on a write -/
 
 /-- the vector a flat / vamana index receives for schema entry `prop` from stored data `d`
